@@ -45,6 +45,53 @@ def hx(x):
     return float(x).hex()
 
 
+def gen_contracted(rng, tier, triples):
+    """cases for the contraction-consistency correspondence (drv_radcon): id nraw A B nU (zeta d)* nA (a c)* nB (b c)* nT (N l1 l2)*"""
+    out = []
+    tl = sorted(triples)
+    hi = [t for t in tl if max(t[1], t[2]) >= 5 and t[1] != t[2]] or tl
+    n = 40 if tier == "quick" else 400
+    for i in range(n):
+        kind = i % 4
+        nraw = rng.choice([0, 0, 1, 2])
+        if kind == 0:
+            # both shells carry the SAME two exponents and sit at the same distance: primitive pairs (i,j) and (j,i) share p and the mapped grid
+            e = [rng.loguniform(0.01, 0.06), rng.loguniform(0.01, 0.06)]
+            ea, eb = list(e), list(e)
+            A = B = rng.uniform(0.8, 3.0)
+            zs = [rng.choice([0.05, 0.1, 0.2, rng.loguniform(0.03, 0.5)])]
+            tr = [rng.choice(hi) for _ in range(2)] + [rng.choice(tl)]
+        elif kind == 1:
+            e = [rng.loguniform(0.05, 2.0) for _ in range(rng.randint(2, 3))]
+            ea, eb = list(e), list(reversed(e))
+            A = B = rng.uniform(0.5, 2.5)
+            zs = [rng.loguniform(0.1, 3.0) for _ in range(rng.randint(1, 2))]
+            tr = [rng.choice(tl) for _ in range(3)]
+        else:
+            ea = [rng.loguniform(0.02, 8.0) for _ in range(rng.randint(1, 3))]
+            eb = [rng.loguniform(0.02, 8.0) for _ in range(rng.randint(1, 3))]
+            A = rng.uniform(0.3, 3.0); B = rng.uniform(0.3, 3.0)
+            zs = [rng.loguniform(0.05, 5.0) for _ in range(rng.randint(1, 2))]
+            tr = [rng.choice(tl) for _ in range(rng.randint(1, 4))]
+        # both orientations of every triple, as the generated classes request them
+        tr = tr + [(t[0], t[2], t[1]) for t in tr if t[1] != t[2]]
+        tr = [t for t in tr if t[0] - nraw >= 0 or True]
+        parts = ["k%d" % i, str(nraw), hx(A), hx(B), str(len(zs))]
+        for z in zs:
+            parts += [hx(z), hx(rng.uniform(0.5, 3.0) * rng.choice([1, -1]))]
+        parts.append(str(len(ea)))
+        for a in ea:
+            parts += [hx(a), hx(rng.uniform(0.2, 1.5))]
+        parts.append(str(len(eb)))
+        for b in eb:
+            parts += [hx(b), hx(rng.uniform(0.2, 1.5))]
+        parts.append(str(len(tr)))
+        for t in tr:
+            parts += [str(t[0]), str(t[1]), str(t[2])]
+        out.append(" ".join(parts))
+    return out
+
+
 def gen_cases(rng, tier, keys, triples):
     out = []
     def add(tag, N, l1, l2, nraw, z, a, b, A, B):
@@ -151,6 +198,21 @@ def run(tier, replay=None):
             raise RuntimeError("drv_radial failed: " + out[-2000:])
         # ---- numeric model of the closed-form path (Radial/RadialNum.v) on the table translated on THIS run: extracted together
         #      with gen/RadialCases.v and run against the library's values of the same cases
+        # ---- contraction consistency: the contracted call = coefficient-weighted sum of single-primitive calls
+        con_bad = []
+        ccs = gen_contracted(rng, tier, triples)
+        ccf = os.path.join(tmp, "ccases.txt"); open(ccf, "w").write("\n".join(ccs) + "\n")
+        exe_c = compile_driver("drv_radcon.cpp", "rel")
+        cof = os.path.join(tmp, "cout.txt")
+        rcc, outc = sh([exe_c, ccf, cof], check=False, timeout=7200)
+        if rcc != 0:
+            raise RuntimeError("drv_radcon failed: " + outc[-2000:])
+        for l in open(cof):
+            if l.startswith("CONMISMATCH"):
+                con_bad.append(l.strip())
+            elif l.startswith("SUMMARY"):
+                res.cov["contraction_consistency"] = dict(x.split("=") for x in l.split()[1:])
+        cby = {c.split()[0]: c for c in ccs}
         radnum_bad = []; radnum_note = None
         if rc1 == 0:
             coq_make(["Radial/RadialNum.vo"])
@@ -242,6 +304,14 @@ def run(tier, replay=None):
             seen_rn.add(cid)
             res.violation("radnum-" + cid, {"theorem_or_correspondence": "Radial/RadialNum.closed_value (extracted with the case table translated on this run) = RadialIntegral::type2 on the closed-form path (1e-10 x sum|terms|)",
                                             "input": by.get(cid), "observed": [x for x in radnum_bad if x.split()[1] == cid][:4], "n": len(radnum_bad)})
+        seen_c = set()
+        for l in con_bad:
+            cid = l.split()[1]
+            if cid in seen_c or len(seen_c) >= 2:
+                continue
+            seen_c.add(cid)
+            res.violation("contraction-" + cid, {"theorem_or_correspondence": "RadialIntegral::type2 on contracted shells = coefficient-weighted sum of its values on the primitive triples alone (1e-10 x sum|terms|)",
+                                                 "input": {"case(id nraw A B nU (zeta d)* nA (a c)* nB (b c)* nT (N l1 l2)*)": cby.get(cid)}, "observed": [x for x in con_bad if x.split()[1] == cid][:6], "n": len(con_bad)})
         if not obligation_ok and not res.violations:
             res.violation("obligation", {"theorem_or_correspondence": "gen/Obl_C12.v table_ok_now / table_wf_now / cases_sound", "bad_keys": bad_keys, "unparsed_statements_in_keys": bad_parse,
                                          "detail": res.cov.get("obligation_error")}, no_input=True)
